@@ -602,6 +602,9 @@ int _vnacal_apply_common(vnacal_apply_args_t vaa)
 	    return -1;
 	}
     }
+    if (vaa.vaa_frequencies == 0) {
+	goto range_ok;
+    }
     fmin = _vnacal_calibration_get_fmin_bound(calp);
     if (vaa.vaa_frequency_vector[0] < fmin) {
 	_vnacal_error(vcp, VNAERR_USAGE,
@@ -617,6 +620,7 @@ int _vnacal_apply_common(vnacal_apply_args_t vaa)
 		calp->cal_frequency_vector[calp->cal_frequencies - 1]);
 	return -1;
     }
+range_ok:
     if (vaa.vaa_b_matrix == NULL) {
 	if (vaa.vaa_m_type == 'm') {
 	    _vnacal_error(vcp, VNAERR_USAGE, "%s: invalid NULL m_matrix",
